@@ -134,6 +134,14 @@ class Func:
             self._cfg = CFG(self, self.j['cfg'])
         return self._cfg
 
+    def never_returns(self):
+        """True if no path of the body reaches the normal exit (the function always throws)"""
+        if getattr(self, '_nr', None) is None:
+            self._nr = False   # recursion guard
+            c = self.cfg
+            self._nr = bool(c is not None and c.exit not in c.reachable())
+        return self._nr
+
     def calls(self, name=None):
         for n in walk(self.body):
             if n['k'] == 'call' and (name is None or n.get('f') == name):
@@ -147,6 +155,22 @@ class CFG:
         self.exit = j['exit']
         self.blocks = {b['id']: b for b in j['blocks']}
         self.succ = {b['id']: [s for s in b['succ']] for b in j['blocks']}
+        # a block that ends in a throw leaves the function exceptionally: no normal successor
+        for b, blk in self.blocks.items():
+            els = [e for e in blk['el'] if isinstance(e, int) and e >= 0]
+            if els and func.nodes.get(els[-1], {}).get('k') == 'throw':
+                self.succ[b] = []
+                blk['throws'] = True
+        # a call to a function that never returns normally (every path throws) ends the block too
+        for b, blk in self.blocks.items():
+            for e in blk['el']:
+                if isinstance(e, int) and e >= 0:
+                    n = func.nodes.get(e)
+                    if n is not None and n['k'] == 'call' and 'fd' in n:
+                        g = func.unit.by_id.get(n['fd'])
+                        if g is not None and g is not func and g.never_returns():
+                            self.succ[b] = []
+                            blk['throws'] = True
         self.pred = defaultdict(list)
         for b, ss in self.succ.items():
             for s in ss:
